@@ -23,6 +23,8 @@ func main() {
 	switch mode {
 	case "spice":
 		runSpice(*tier, *seed, *summary, *out)
+	case "wallet":
+		runWallet(*tier, *seed, *summary, *out)
 	default:
 		fmt.Fprintln(os.Stderr, "unknown mode", mode)
 		os.Exit(2)
